@@ -1,0 +1,23 @@
+#ifndef VERIFHOOK_H
+#define VERIFHOOK_H
+/* verifhook.h */
+/*****************************************************************************/
+/* Verification hooks: compiled in only with -DASL_VERIF, and inert unless   */
+/* the respective ASL_VERIF_* environment variable is set at run time.       */
+/*****************************************************************************/
+
+#ifdef ASL_VERIF
+
+#    include <stdio.h>
+
+/* trace file named by ASL_VERIF_TRACE (opened for append on first use), or NULL */
+
+extern FILE* VerifTrace(void);
+
+/* numeric environment variable, Default if unset or not a number */
+
+extern long VerifEnvLong(char const* pName, long Default);
+
+#endif /* ASL_VERIF */
+
+#endif /* VERIFHOOK_H */
